@@ -86,6 +86,23 @@ Section Modes.
     let '(st', fl) := run_parsed (parse o text) text 0 st in
     (st', match fl with FReturn => FNormal | _ => fl end).
 
+  (** bash reads positions inside eval'ed text relative to the line [L] of the `eval` word. *)
+  Definition eval_builtin_bash (h : list (str * opts)) (o : opts) (text : str) (base L : nat) (st : St) : St * flow :=
+    run_parsed (parse_string h o text) text (base + (L - 1)) st.
+
+  (** Full statement (refuted for the model of the unchanged code, see [Example.eval_lineno_refuted]
+      and the known finding KF-C15-eval-lineno-base): *)
+  Definition eval_lineno_stmt : Prop :=
+    forall h o text base L st, eval_builtin h o text base st = eval_builtin_bash h o text base L st.
+
+  (** Outside the known class ([L > 1]): an `eval` on the first line agrees with bash's rule. *)
+  Lemma eval_lineno_outside_known : forall h o text base L st, ~ (1 < L)%nat ->
+    eval_builtin h o text base st = eval_builtin_bash h o text base L st.
+  Proof.
+    intros h o text base L st HL. unfold eval_builtin, eval_builtin_bash.
+    replace (base + (L - 1))%nat with base by lia. reflexivity.
+  Qed.
+
   (** Delivery through a one-command wrapper ( -c 'eval "$text"' ,  -c '. file' ). *)
   Definition eval_delivery (h : list (str * opts)) (o : opts) (text : str) (st : St) : St :=
     on_exit (fst (eval_builtin h o text 0 st)).
